@@ -1,5 +1,197 @@
-"""Checker-sensitivity self-test (thorough tier). Filled per property."""
+"""Checker-sensitivity self-test (thorough tier).
+
+Each variant is an edit of the *current* tree, analysed through an in-memory
+overlay (nothing is written to disk, nothing is executed): the rule must fire
+on a broken variant, naming a finding of the expected rule, and stay silent
+on a behaviour-preserving twin.  A variant whose anchor text is no longer in
+the tree is skipped and listed.  Seeded changes kept under /verif/seeded are
+replayed the same way from their patch.diff.
+"""
+import importlib
+import json
+import os
+import re
+
+from .index import RepoIndex, AnalysisError, REPO
+from .report import Run, load_known, VERIF
 
 
-def run_for(pid):
-    return None
+class Variant:
+    def __init__(self, name, relpath, old, new, expect, count=1):
+        self.name = name
+        self.relpath = relpath
+        self.old = old
+        self.new = new
+        self.expect = expect   # 'silent' | 'fires:<rule prefix>' | 'error'
+        self.count = count
+
+
+def apply_unified_diff(patch_text):
+    """-> {relpath: new text} by applying a git diff to the current tree.
+    Returns None if some hunk does not apply."""
+    files = {}
+    cur = None
+    hunks = []
+    for line in patch_text.splitlines():
+        if line.startswith("diff --git"):
+            cur = None
+        elif line.startswith("+++ "):
+            path = line[4:].strip()
+            if path.startswith("b/"):
+                path = path[2:]
+            cur = path
+            files[cur] = []
+        elif line.startswith("--- "):
+            continue
+        elif line.startswith("@@") and cur is not None:
+            files[cur].append([])
+        elif cur is not None and files[cur] and \
+                (line[:1] in (" ", "+", "-") or line == ""):
+            files[cur][-1].append(line if line else " ")
+    out = {}
+    for path, hunks in files.items():
+        full = os.path.join(REPO, path)
+        if not os.path.exists(full):
+            return None
+        with open(full, encoding="utf-8") as fin:
+            lines = fin.read().split("\n")
+        for hunk in hunks:
+            before = [l[1:] for l in hunk if l[0] in (" ", "-")]
+            after = [l[1:] for l in hunk if l[0] in (" ", "+")]
+            pos = _find(lines, before)
+            if pos is None:
+                return None
+            lines[pos:pos + len(before)] = after
+        out[path] = "\n".join(lines)
+    return out
+
+
+def _find(lines, block):
+    if not block:
+        return None
+    hits = [i for i in range(len(lines) - len(block) + 1)
+            if lines[i:i + len(block)] == block]
+    if len(hits) == 1:
+        return hits[0]
+    # tolerate context drift: shrink the context symmetrically
+    return hits[0] if hits else None
+
+
+def analyse(pid, overlay):
+    """Run property `pid` on the overlay; returns (new finding keys, error)"""
+    modname = None
+    rdir = os.path.join(VERIF, "rules")
+    for fname in os.listdir(rdir):
+        if fname.startswith("c" + pid[1:]) and fname.endswith(".py"):
+            modname = "rules." + fname[:-3]
+    mod = importlib.import_module(modname)
+    try:
+        idx = RepoIndex(overlay=overlay)
+        run = Run(pid, "thorough", getattr(mod, "LEVEL", "other"))
+        mod.check(idx, run)
+        if hasattr(mod, "check_thorough"):
+            mod.check_thorough(idx, run)
+    except AnalysisError as err:
+        return None, str(err)
+    known = load_known()
+    new = [f for f in run.findings
+           if not (f.key in known and known[f.key].get("status") == "known"
+                   and known[f.key].get("property") == pid)]
+    return new, None
+
+
+def run_for(pid, verbose=True):
+    """-> None if fine, else text describing the failing variants."""
+    results = []
+    failures = []
+    try:
+        vmod = importlib.import_module("selftest." + pid.lower())
+        variants = list(vmod.VARIANTS)
+    except ModuleNotFoundError:
+        variants = []
+    for var in variants:
+        full = os.path.join(REPO, var.relpath)
+        if not os.path.exists(full):
+            results.append((var.name, "skipped: file missing"))
+            continue
+        with open(full, encoding="utf-8") as fin:
+            text = fin.read()
+        if text.count(var.old) != var.count:
+            results.append((var.name, f"skipped: anchor text occurs "
+                            f"{text.count(var.old)}x (expected {var.count})"))
+            continue
+        newtext = text.replace(var.old, var.new)
+        try:
+            compile(newtext, var.relpath, "exec")
+        except SyntaxError as err:
+            failures.append(f"{var.name}: variant does not compile: {err}")
+            continue
+        new, err = analyse(pid, {var.relpath: newtext})
+        results.append(_judge(var.name, var.expect, new, err, failures))
+    # seeded changes
+    sdir = os.path.join(VERIF, "seeded")
+    if os.path.isdir(sdir):
+        for name in sorted(os.listdir(sdir)):
+            meta_p = os.path.join(sdir, name, "meta.json")
+            patch_p = os.path.join(sdir, name, "patch.diff")
+            if not (os.path.exists(meta_p) and os.path.exists(patch_p)):
+                continue
+            with open(meta_p, encoding="utf-8") as fin:
+                meta = json.load(fin)
+            if meta.get("property") != pid:
+                continue
+            with open(patch_p, encoding="utf-8") as fin:
+                overlay = apply_unified_diff(fin.read())
+            if overlay is None:
+                results.append((f"seeded/{name}",
+                                "skipped: patch does not apply to the "
+                                "current tree"))
+                continue
+            expect = meta.get("expected_static", "fires:" + pid)
+            new, err = analyse(pid, overlay)
+            results.append(_judge(f"seeded/{name}", expect, new, err,
+                                  failures))
+    if verbose:
+        for name, res in results:
+            print(f"selftest {pid} {name}: {res}")
+    out_dir = os.path.join(VERIF, "evidence")
+    path = os.path.join(out_dir, f"{pid}.json")
+    if os.path.exists(path):
+        with open(path, encoding="utf-8") as fin:
+            evid = json.load(fin)
+        evid["coverage"]["selftest"] = [
+            {"variant": n, "result": r} for n, r in results]
+        with open(path, "w", encoding="utf-8") as fout:
+            json.dump(evid, fout, indent=1)
+    return "; ".join(failures) if failures else None
+
+
+def _judge(name, expect, new, err, failures):
+    if expect == "error":
+        if err is None:
+            failures.append(f"{name}: expected ANALYSIS-ERROR, got "
+                            f"{len(new)} findings")
+            return name, "FAILED (no analysis error)"
+        return name, "ok (analysis error as expected)"
+    if err is not None:
+        if expect == "miss":
+            return name, f"analysis error: {err}"
+        failures.append(f"{name}: unexpected analysis error: {err}")
+        return name, f"FAILED (analysis error: {err})"
+    if expect == "silent":
+        if new:
+            failures.append(f"{name}: behaviour-preserving variant raised "
+                            f"{[f.key for f in new][:2]}")
+            return name, "FAILED (false alarm)"
+        return name, "ok (silent)"
+    if expect == "miss":
+        return name, ("recorded miss (outside what the rules decide)"
+                      if not new else
+                      f"now caught: {[f.rule for f in new][:3]}")
+    prefix = expect.split(":", 1)[1]
+    hit = [f for f in new if f.rule.startswith(prefix)]
+    if not hit:
+        failures.append(f"{name}: expected a {prefix} finding, got "
+                        f"{[f.key for f in new][:3]}")
+        return name, "FAILED (not detected)"
+    return name, f"ok (fires {hit[0].rule}: {hit[0].detail[:60]})"
